@@ -5,13 +5,12 @@
  "enforce": ["events_network_get"],
  "replace": [],
  "annotate": ["events/events_network.c"],
- "defines": ["VERIF_HALLOC", "NET_FIXCAP", "NS_Q=3", "NF_Q=3", "NF_A=3"],
- "thorough_defines": ["NS_Q=4", "NF_Q=4", "NF_A=4"],
+ "defines": ["VERIF_HALLOC", "NET_FIXCAP"],
  "models": ["models/ev_poll.c", "models/ev_atexit.c", "models/ev_selectstats.c", "models/ev_warnp.c"],
  "loop_contracts": false,
- "unwind": 4, "thorough_unwind": 5,
+ "unwind": 5,
  "bounded": true,
- "bound": "scan loop unwound NF_Q+1 times: complete for nfds <= NF_Q (3 quick / 4 thorough), the pollfd size parameter that bounds INV_net as well; unwinding assertion checked",
+ "bound": "scan loop unwound NF_Q+1 times: complete for nfds <= NF_Q = 4, the pollfd size parameter that bounds INV_net as well; unwinding assertion checked",
  "timeout": 300,
  "assumptions": ["object-size parameters: <= NS_Q descriptors in S, <= NF_Q initialised pollfd entries (for-all invariants expanded over these constants); the scan loop is unwound to the same parameter (tool limit of DFCC loop contracts with object targets, see the spec file)",
                  "clearbit inlined (real code)",
